@@ -12,6 +12,7 @@
 #include "../common/isal.hpp"
 #include "../common/json.hpp"
 #include "../common/pbt.hpp"
+#include "../common/fips_status.hpp"
 #include <atomic>
 #include <chrono>
 #include <csignal>
@@ -100,19 +101,7 @@ extern "C" void __wrap__sha1_ctx_mgr_init(void *mgr)
         (void) mgr;
 }
 
-static volatile uint32_t *status_ptr()
-{
-        static volatile uint32_t *p = nullptr;
-        if (p) return p;
-        const uint8_t *c = (const uint8_t *) &asm_set_self_tests_status;
-        if (c[0] == 0xf3 && c[1] == 0x0f && c[2] == 0x1e && c[3] == 0xfa) c += 4;
-        if (c[0] == 0x89 && c[1] == 0x3d) {
-                int32_t rel;
-                memcpy(&rel, c + 2, 4);
-                p = (volatile uint32_t *) (c + 6 + rel);
-        }
-        return p;
-}
+static volatile uint32_t *status_ptr() { return fips::status_ptr(); }
 
 static uint8_t g_mgr[MAXT][1 << 12] __attribute__((aligned(64)));
 extern "C" __attribute__((noinline, used)) void c17_thread_entry(long i)
@@ -348,7 +337,7 @@ static bool run_parallel(const Case &c, pbt::Ctx &ctx)
                         g_pt[i].skew = c.skew.empty() ? 0 : c.skew[(i + r) % c.skew.size()];
                         g_pt[i].ret1 = g_pt[i].ret2 = -99;
                 }
-                asm_set_self_tests_status(2);
+                fips::set_state(2);
                 g_go.fetch_add(1, std::memory_order_release);
                 auto t0 = std::chrono::steady_clock::now();
                 bool timeout = false;
@@ -359,7 +348,7 @@ static bool run_parallel(const Case &c, pbt::Ctx &ctx)
                 }
                 if (timeout) {
                         // a wall-clock bound is not an oracle: release possible spinners and call this round inconclusive
-                        asm_set_self_tests_status(0);
+                        fips::set_state(0);
                         while (g_finished.load() < n) relax(sp);
                         ctx.label("parallel-round-timeout(inconclusive)");
                         continue;
@@ -389,7 +378,7 @@ static bool run_parallel(const Case &c, pbt::Ctx &ctx)
                 g_go.fetch_add(1, std::memory_order_release);
                 for (int i = 0; i < n; i++) g_pt[i].th.join();
         }
-        asm_set_self_tests_status(0);
+        fips::set_state(0);
         ctx.label("parallel rounds", (uint64_t) rounds);
         ctx.label("parallel rounds with >=2 threads arriving before the verdict", contended);
         ctx.nontrivial = contended > 0;
@@ -422,12 +411,12 @@ static bool run(const Case &c, pbt::Ctx &ctx)
                 T[i].ret1 = T[i].ret2 = -99;
                 T[i].tests_done_at_ret1 = T[i].published_at_ret1 = -1;
         }
-        asm_set_self_tests_status(2); // SELF_TEST_NOT_DONE
+        fips::set_state(2); // SELF_TEST_NOT_DONE
         g_cur = -1;
         g_single_step = 1;
         raise(SIGTRAP); // enters the scheduler; returns here when every logical thread finished
         g_single_step = 0;
-        asm_set_self_tests_status(0);
+        fips::set_state(0);
         g_case = nullptr;
 
         ctx.label("threads=" + std::to_string(c.n));
@@ -508,7 +497,7 @@ int main(int argc, char **argv)
         P.id = "C17";
         P.setup = [](pbt::Ctx &ctx) {
                 if (!status_ptr()) { fprintf(stderr, "HARNESS-ERROR: cannot locate the self-test status word\n"); exit(3); }
-                asm_set_self_tests_status(0);
+                fips::set_state(0);
                 if (isal_self_tests() == ISAL_CRYPTO_ERR_FIPS_DISABLED) { fprintf(stderr, "HARNESS-ERROR: C17 needs the FIPS_MODE variant of the library\n"); exit(3); }
                 g_chk_lo = (uintptr_t) &asm_check_self_tests_status;
                 g_chk_hi = (uintptr_t) &asm_set_self_tests_status;
